@@ -58,24 +58,28 @@ func (w *world) compare(o *Obs) *diff {
 	}
 	for s := 1; s <= w.cfg.N; s++ {
 		for _, k := range []string{"w", "r"} {
-			var spec []int
-			if s-1 < len(o.Fly) {
-				spec = o.Fly[s-1][k]
+			// what the leader of the shard holds unanswered: on the write stream the abandoned requests (their
+			// client-side wait timed out) in arrival order, then the one in flight
+			var spec [][]int
+			if k == "w" && s-1 < len(o.Late) {
+				spec = append(spec, o.Late[s-1]...)
+			}
+			if s-1 < len(o.Fly) && len(o.Fly[s-1][k]) > 0 {
+				spec = append(spec, o.Fly[s-1][k])
 			}
 			real := w.pend[pkey{s, k}]
-			switch {
-			case len(real) > 1:
-				return &diff{Class: "diverged", What: fmt.Sprintf("two requests in flight on shard %d/%s", s, k)}
-			case len(spec) == 0 && len(real) == 0:
-			case len(spec) > 0 && len(real) == 0:
-				stall = &diff{Class: "stall", What: fmt.Sprintf("request %v has not reached shard %d/%s", spec, s, k)}
-			case len(spec) == 0:
-				return &diff{Class: "diverged", What: fmt.Sprintf("unexpected request p=%v d=%v r=%v on shard %d/%s", real[0].p, real[0].d, real[0].r, s, k)}
-			default:
-				p, d, r := typeLists(w, spec)
-				if !eqInts(p, real[0].p) || !eqInts(d, real[0].d) || !eqInts(r, real[0].r) {
-					return &diff{Class: "diverged", What: fmt.Sprintf("shard %d/%s holds p=%v d=%v r=%v, specification %v", s, k, real[0].p, real[0].d, real[0].r, spec)}
+			for i := 0; i < len(real) && i < len(spec); i++ {
+				p, d, r := typeLists(w, spec[i])
+				if !eqInts(p, real[i].p) || !eqInts(d, real[i].d) || !eqInts(r, real[i].r) {
+					return &diff{Class: "diverged", What: fmt.Sprintf("shard %d/%s holds p=%v d=%v r=%v at position %d, specification %v", s, k, real[i].p, real[i].d, real[i].r, i, spec[i])}
 				}
+			}
+			switch {
+			case len(real) > len(spec):
+				x := real[len(spec)]
+				return &diff{Class: "diverged", What: fmt.Sprintf("unexpected request p=%v d=%v r=%v on shard %d/%s (specification: %v)", x.p, x.d, x.r, s, k, spec)}
+			case len(real) < len(spec):
+				stall = &diff{Class: "stall", What: fmt.Sprintf("request %v has not reached shard %d/%s", spec[len(real)], s, k)}
 			}
 		}
 	}
@@ -86,6 +90,11 @@ func (w *world) compare(o *Obs) *diff {
 			want = o.Done[i]
 		}
 		got := cs.doneCount()
+		if got >= 1 && cs.vals != nil && cs.vals[0].St == "timeout" && (want == 0 || i >= len(o.Res) || o.Res[i].St != "timeout") {
+			// the real request timeout fired although the specification's has not (the replayer was too slow
+			// to answer in time): timing noise, like a linger timer that did not keep pace
+			return &diff{Class: "diverged", What: fmt.Sprintf("call %d (%s) timed out before the replayer acted", c, cs.t.Op)}
+		}
 		if got > want {
 			return &diff{Class: "contra", What: fmt.Sprintf("call %d (%s) completed %d time(s), specification %d", c, cs.t.Op, got, want)}
 		}
@@ -170,16 +179,32 @@ func replayOnce(base string, b *Behaviour, linger time.Duration, wait time.Durat
 	if b.Cfg.Linger {
 		lg = linger
 	}
-	w, err := newWorld(base, b.Cfg, lg, 1)
+	// The request timeout of a cfg.Tmo world is real time as well: five lingers, so that a request the
+	// specification answers is answered long before (a behaviour lets at most two linger timers pass while
+	// a request is in flight), and an "Expire" step simply lets it pass.
+	tmo := 5 * linger
+	w, err := newWorld(base, b.Cfg, lg, 1, tmo)
 	if err != nil {
 		return res, err
 	}
 	defer w.close()
 	wait += lg
+	if b.Cfg.Tmo {
+		wait += tmo
+	}
 	var df *diff
+	lastEnv := ""
 	for i := range b.Steps {
 		st := &b.Steps[i]
 		if internalStep(st.A) {
+			continue
+		}
+		// The requests in flight expire one after the other and the batchers they release start their linger
+		// timers meanwhile: the state "everything expired, no new timer fired yet" need not exist in real
+		// time, so the timer step the specification forces after an expiry is not waited for separately.
+		skip := st.A == "Timer" && lastEnv == "Expire"
+		lastEnv = st.A
+		if skip {
 			continue
 		}
 		if df = w.sync(st.Pre, wait); df != nil {
@@ -193,6 +218,28 @@ func replayOnce(base string, b *Behaviour, linger time.Duration, wait time.Durat
 			}
 		case "Timer":
 			// nothing to do: the next sync waits for the requests the expired timers release
+		case "Expire":
+			// The leaders stay silent and the streams stay open until the request timeout of everything in
+			// flight has passed.  The completions it causes are waited for by the next sync, but an expiry
+			// need not complete anything (a fan-out call that has failed already), so the real time is let
+			// pass as well: a request the leader received at t is given up by the client before t + timeout.
+			w.mu.Lock()
+			var until time.Time
+			for _, l := range w.pend {
+				for _, pb := range l {
+					if t := pb.at.Add(w.reqTimeout + w.reqTimeout/8); t.After(until) {
+						until = t
+					}
+				}
+			}
+			w.mu.Unlock()
+			time.Sleep(time.Until(until))
+		case "RespondLate":
+			// the leader answers the oldest request it still holds on the write stream: one whose client-side
+			// wait has timed out
+			if !w.answer(st.S, "w", ansOK, 0) {
+				return res, fmt.Errorf("no request to answer at step %d", i)
+			}
 		case "Respond", "Fail", "Break":
 			mode := map[string]int{"Respond": ansOK, "Fail": ansFail, "Break": ansBreak}[st.A]
 			if !w.answer(st.S, st.K, mode, st.N) {
